@@ -191,7 +191,7 @@ pub fn content_bytes(pt: Pt, n: usize, w: usize, content: Content, seed: u64) ->
             // value in 0..=65535 scale + raw random
             let r = rng.next_u64();
             let v16: u32 = match content {
-                Content::Random => (r & 0xffff) as u32,
+                Content::Random | Content::Cancel => (r & 0xffff) as u32,
                 Content::Tiny => (r & 0x3ff) as u32,
                 Content::Ramp => ((x * 7 + y * 13 + c * 29) & 0xffff) as u32 * 257 % 65536,
                 Content::Zeros => 0,
@@ -241,7 +241,7 @@ pub fn content_bytes(pt: Pt, n: usize, w: usize, content: Content, seed: u64) ->
                 1 => out.extend_from_slice(&(v16 as u16).to_ne_bytes()),
                 2 => {
                     let v: i32 = match content {
-                        Content::Random | Content::AlphaEdges | Content::Opaque | Content::SparseAlpha => (r >> 16) as i32,
+                        Content::Random | Content::Cancel | Content::AlphaEdges | Content::Opaque | Content::SparseAlpha => (r >> 16) as i32,
                         Content::Tiny => (v16 & 0xff) as i32,
                         Content::Zeros => 0,
                         Content::Ones => i32::MAX,
@@ -271,6 +271,16 @@ pub fn content_bytes(pt: Pt, n: usize, w: usize, content: Content, seed: u64) ->
                             }
                         }
                         Content::Tiny => f32::from_bits(1 + ((r >> 20) as u32 & 0x3f_ffff)),
+                        Content::Cancel => {
+                            const PATS: [[i8; 4]; 4] = [[1, 0, -1, 0], [1, -1, 0, 0], [1, 0, 0, -1], [0, 1, -1, 0]];
+                            let pat = PATS[(seed & 3) as usize];
+                            let big = f32::from_bits(((127 + 55 + ((seed >> 2) % 46) as u32) & 0xff) << 23);
+                            match pat[(x + y + c) & 3] {
+                                1 => big,
+                                -1 => -big,
+                                _ => v16 as f32 / 65535.0,
+                            }
+                        }
                         _ => v16 as f32 / 65535.0,
                     };
                     out.extend_from_slice(&f.to_ne_bytes());
